@@ -82,7 +82,12 @@ fn compare(spec: &NodeSpec, a: &Out, b: &Out, t: u64, m_hist: f64, m_flow: f64, 
         return Cmp { ok: true, skipped: false, ratio: 0.0, what: "bits" };
     }
     match kind {
-        Kind::Min | Kind::Max | Kind::FastStoch => Cmp { ok: a.same_bits(b), skipped: false, ratio: if a.same_bits(b) { 0.0 } else { f64::INFINITY }, what: "bits" },
+        Kind::Min | Kind::Max | Kind::FastStoch => {
+            // exact: identical bits, or numerically equal (+0.0 vs -0.0: which of two equal window values is
+            // remembered legitimately depends on the past; the VALUE must not)
+            let ok = a.same_bits(b) || a.v[0] == b.v[0];
+            Cmp { ok, skipped: false, ratio: if ok { 0.0 } else { f64::INFINITY }, what: "exact" }
+        }
         Kind::Sma | Kind::Wma | Kind::Mad => within((a.v[0] - b.v[0]).abs(), tau * m_hist, "tau*M"),
         Kind::Sd => within((a.v[0] * a.v[0] - b.v[0] * b.v[0]).abs(), tau * m_hist * m_hist, "variance tau*M^2"),
         Kind::Bb => {
@@ -394,11 +399,20 @@ pub fn generate(rng: &mut Rng, tier: Tier, long_uptime: bool) -> Scenario {
                 Tier::Quick => {
                     if heavy {
                         20_000
+                    } else if rng.chance(0.06) {
+                        // past 2^20 calls on one instance (periodic re-syncs, narrow counters)
+                        rng.range(1_050_000, 1_300_000)
                     } else {
                         rng.log_range(10_000, 200_000)
                     }
                 }
-                Tier::Thorough => rng.log_range(10_000, 1_000_000),
+                Tier::Thorough => {
+                    if heavy {
+                        rng.log_range(10_000, 1_000_000)
+                    } else {
+                        rng.log_range(10_000, 3_000_000)
+                    }
+                }
             };
             let chunks = rng.range(1, 6);
             for c in 0..chunks {
@@ -484,7 +498,7 @@ pub fn run(tier: Tier) -> i32 {
         &total,
         report::EvidenceMeta {
             level: "exploration",
-            rule: "one evaluation = one two-replica scenario: a veteran consumes a prefix in a random market regime under finite faults (spikes x10/x1e3/x1e6 on price or volume, single and burst, regime shifts x1000, stalls, duplicates, drops) of 0..3n+50 ticks, or a long uptime of 1e4..1e6 ticks; then a rookie is cold-started (new) and both consume a common suffix of n+1..n+41 ticks; from the tick at which the rookie has seen n (n+1 for ROC/ER/MFI) inputs every output pair is compared (bits for Minimum/Maximum/FastStochastic; tau(t)*M for SMA/WMA/MAD/BB.average; variance-level tau(t)*M^2 for SD and BB half-widths; tau(t)*cond*scale for ROC/ER/MFI/CCI with the condition number computed from the harness's own copy of the window). distinct_nontrivial counts distinct situations (indicator, period bucket, veteran uptime class, last fault in the prefix, input mode, position after the recovery bound) in which a comparison was made with a non-empty prefix; ill-conditioned windows (zero denominator, window-local condition number > 1e6, tolerance >= output range) are skipped and counted in oracle_skipped_ill_conditioned.",
+            rule: "one evaluation = one two-replica scenario: a veteran consumes a prefix in a random market regime under finite faults (spikes x10/x1e3/x1e6 on price or volume, single and burst, regime shifts x1000, stalls, duplicates, drops, exact zeros, -0.0, min-positive and subnormal values, zero volume) of 0..3n+50 ticks, or a long uptime of 1e4..3e6 ticks (quick: up to 1.3e6, i.e. past 2^20 calls); then a rookie is cold-started (new) and both consume a common suffix of n+1..n+41 ticks; from the tick at which the rookie has seen n (n+1 for ROC/ER/MFI) inputs every output pair is compared (bits for Minimum/Maximum/FastStochastic; tau(t)*M for SMA/WMA/MAD/BB.average; variance-level tau(t)*M^2 for SD and BB half-widths; tau(t)*cond*scale for ROC/ER/MFI/CCI with the condition number computed from the harness's own copy of the window). distinct_nontrivial counts distinct situations (indicator, period bucket, veteran uptime class, last fault in the prefix, input mode, position after the recovery bound) in which a comparison was made with a non-empty prefix; ill-conditioned windows (zero denominator, window-local condition number > 1e6, tolerance >= output range) are skipped and counted in oracle_skipped_ill_conditioned.",
             assumptions: vec![
                 "finite inputs only: tolerances are defined through the largest magnitude M of the history".into(),
                 "condition number for ratio indicators = M_hist/|denominator| * (1+|ratio|), denominators recomputed by the harness from its copy of the common window".into(),
